@@ -248,7 +248,8 @@ def run(ctx):
                         except Exception:
                             pass
                     elif op == "posterior-extreme":
-                        j.rejection_sample(pb.data, pb.lib[:1], n_linear_samples=50, in_memory=True)
+                        if np.isfinite(base[0]):      # a one-row library needs a finite likelihood to return anything
+                            j.rejection_sample(pb.data, pb.lib[:1], n_linear_samples=50, in_memory=True)
                     else:
                         pass
                 except Exception as e:
